@@ -465,17 +465,14 @@ class DataQuerent(object):
             if len(node.members) == 0:
                 return []
 
-            matched_indices = self.filter_for_indices(
-                node.members[:node.descriptor.n_members], path_component,
-            )
-
-            if not matched_indices:
-                return []
-
             replication_envelope = []
             for i in range(0, len(node.members), node.descriptor.n_members):
+                # Repetitions need not carry the same descriptors (e.g. marker
+                # operators under a bitmap), so each one is matched on its own
                 member_nodes = node.members[i: i + node.descriptor.n_members]
-                sub_nodes = [member_nodes[i] for i in matched_indices]
+                sub_nodes = self.filter_for_nodes(member_nodes, path_component)
+                if not sub_nodes:
+                    continue
 
                 if path_component.separator == PATH_SEPARATOR_DESCEND:
                     sub_nodes = self.descend_and_proceed(sub_nodes, path_components)
